@@ -83,12 +83,14 @@ fn cancel_order_syscall(
 
     // Only an order that was actually issued can be cancelled, and only once: the host must
     // never be told about a cancellation it cannot match to an order it has seen
-    if id.0 == 0 || id.0 >= interp.next_order_id || interp.cancelled_orders.contains(&id) {
+    if id.0 == 0 || id.0 >= interp.next_order_id {
         return Ok(Guarded::unguarded(JsValue::Undefined));
     }
 
     // Mark as cancelled
-    interp.cancelled_orders.push(id);
+    if !interp.note_cancelled_order(id) {
+        return Ok(Guarded::unguarded(JsValue::Undefined));
+    }
 
     // Remove from pending
     interp.pending_orders.retain(|o| o.id != id);
